@@ -12,19 +12,19 @@ from ..core import AnalysisError, own_nodes, norm, parents
 from ..effects import Effects
 from .. import rules, estyping
 
-LEVEL_TEXT = ("static analysis: (D1) do_segmetrics interpreted with tagged statistics: every location statistic is applied to exactly the bins "
+LEVEL_TEXT = ('static analysis: (D1) do_segmetrics interpreted with tagged statistics: every location statistic is applied to exactly the bins '
               "iter_ranges_of(segments, 'log2', 'outer', keep_empty) yields for that segment, every spread statistic to those bins minus the "
-              "segment's log2, every interval to the bins and the weights selected by the bins' own index; the statistic names are bound to the "
-              "named functions, each CLI flag names an implemented statistic of its class, skip_low drops null-coverage bins first; (D2) the "
-              "prediction interval is the 100*alpha/2 and 100*(1 - alpha/2) percentiles (exact terms in alpha); the bootstrap CI takes the same "
-              "percentiles of the resampled weighted means, raises the number of bootstraps to ceil(2/alpha) when too few, returns the value "
-              "itself for fewer than two bins and rejects alpha outside (0, 1); (D3) every random draw of segmetrics.py is dominated by a "
-              "constant seed (through the private helper's only caller); (D4) all stores go to a copy of the segments and only to new column "
-              "names; (D5) z_prob = BH(2*cdf(-|log2 / sqrt(1 - weight)|)); do_bintest stores the residuals as an index-aligned Series (not "
-              "positionally), drops off-target bins before the adjustment when asked, and returns exactly the bins with adjusted p < alpha; "
-              "p_adjust_bh, interpreted on all orderings of four p-values with and without ties, equals the Benjamini-Hochberg step-up "
-              "formula min(1, min_{j>=i} n p_(j) / j). Does not decide numerical agreement of the individual statistics with reference "
-              "implementations, nor that the CI lies inside the bins' range.")
+              "segment's log2, every interval to all of the segment's bins and their weights selected by the bins' own index (a filtered subset "
+              'is a wrong operand); the statistic names are bound to the named functions, each CLI flag names an implemented statistic of its '
+              'class, skip_low drops null-coverage bins first; (D2) the prediction interval is the 100*alpha/2 and 100*(1 - alpha/2) percentiles '
+              '(exact terms in alpha); the bootstrap CI takes the same percentiles of the resampled weighted means, raises the number of '
+              'bootstraps to ceil(2/alpha) when too few, returns the value itself for fewer than two bins and rejects alpha outside (0, 1); (D3) '
+              "every random draw of segmetrics.py is dominated by a constant seed (through the private helper's only caller); (D4) all stores go "
+              'to a copy of the segments and only to new column names; (D5) z_prob = BH(2*cdf(-|log2 / sqrt(1 - weight)|)); do_bintest stores the'
+              ' residuals as an index-aligned Series (not positionally), drops off-target bins before the adjustment when asked, and returns '
+              'exactly the bins with adjusted p < alpha; p_adjust_bh, interpreted on all orderings of four p-values with and without ties, equals'
+              ' the Benjamini-Hochberg step-up formula min(1, min_{j>=i} n p_(j) / j). Does not decide numerical agreement of the individual '
+              "statistics with reference implementations, nor that the CI lies inside the bins' range.")
 TECHNIQUE = "abstract interpretation with tagged statistic summaries (argument provenance), exact rational terms in alpha, seed-dominance rule, exact small-scope evaluation of Benjamini-Hochberg"
 
 SM = "cnvlib.segmetrics"
